@@ -158,4 +158,21 @@ mod verif_kani {
         }
         kani::cover!(r.is_ok());
     }
+
+    /// quick tier: strings of up to 12 characters of U+0000..U+00FF (1 or 2 bytes each, so up to 24 bytes) are all too short
+    #[kani::proof]
+    #[kani::unwind(14)]
+    #[kani::stub(std::fmt::format, fmt_stub)]
+    fn visit_str_short_rejected() {
+        let n: usize = kani::any();
+        kani::assume(n <= 12);
+        let mut buf = [0u8; 24];
+        let mut len = 0;
+        let mut i = 0;
+        while i < n { let c = char::from(kani::any::<u8>()); len += c.encode_utf8(&mut buf[len..]).len(); i += 1; }
+        let s = unsafe { std::str::from_utf8_unchecked(&buf[..len]) };
+        let r: Result<[u8; 20], E> = TwentyByteVisitor.visit_str(s);
+        assert!(r.is_err(), "[C15.ident.too_short] fewer than 20 characters must be rejected (whatever their UTF-8 length)");
+        kani::cover!(len == 20);
+    }
 }
